@@ -11,6 +11,7 @@ from harness.framework import pmap
 from harness.progrun import run_program
 
 LEVEL = "proof"
+TRANSLATED_KERNELS = ["_check_regular_chunks", "to_chunksize"]   # harness/translate.py: re-translated from /repo on every run and proved equal to Model.Regular
 RULE = ("generated programs (all op families incl. multi-output unstack, arg-reductions with structured intermediates, qr/svd in the "
         "linalg scenarios) run on the adversarial executor with every op's block function wrapped: the shape of every block a task "
         "hands to Zarr (every task, every output, intermediate and fused ops) must equal the chunk region it is written into; the "
@@ -19,7 +20,7 @@ RULE = ("generated programs (all op families incl. multi-output unstack, arg-red
         "declared chunks of reductions vs Model.OpsKF/ShapeSem. non-trivial = program with a reduction, multi-output or "
         "shape-changing op; distinct = distinct program")
 ASSUMPTIONS = ["Zarr would broadcast or reject a block of the wrong shape; the wrapper observes the block before it is written"]
-TRUSTED = ["function wrapper injected through the adversarial executor (dataclasses.replace of the BlockwiseSpec function)"]
+TRUSTED = ["harness/translate.py (fail-closed Python-ast -> Gallina translator; lengths and chunk sizes are nat, no subtraction occurs)", "function wrapper injected through the adversarial executor (dataclasses.replace of the BlockwiseSpec function)"]
 
 DT_CODES = {"bool": 0, "int8": 1, "int16": 2, "int32": 3, "int64": 4, "uint8": 5, "uint16": 6, "uint32": 7, "uint64": 8,
             "float32": 9, "float64": 10, "complex64": 11, "complex128": 12}
